@@ -340,6 +340,7 @@ def write_evidence(prop, tier, results, wall, violations, notes, known_lines):
             "solver_s_total": round(sum(r.solver_s for r in results), 1),
             "negative_twins_failing_as_required": len([r for r in results if r.h.expect == "fail" and r.status == "fail"]),
             "inconclusive": [r.h.name for r in results if r.status == "inconclusive"],
+            "attempts_not_closed": [r.h.name for r in results if r.status == "attempt-open"],
             "known_findings_reported": known_lines,
             "exhaustive": False,
             "explanation": notes,
@@ -399,6 +400,7 @@ def main(args):
         known = load_known()
         violations = 0
         inconclusive = []
+        attempts_open = []
         known_lines = []
         for r in results:
             h = r.h
@@ -408,7 +410,10 @@ def main(args):
                 elif r.status == "inconclusive":
                     inconclusive.append((h.name, r.reason))
                 continue
-            if r.status == "inconclusive":
+            if r.status == "inconclusive" and h.attempt:
+                attempts_open.append((h.name, r.reason))
+                r.status = "attempt-open"
+            elif r.status == "inconclusive":
                 inconclusive.append((h.name, r.reason))
             elif r.status == "pass":
                 bad = [k for k, v in r.covers.items() if v != "SATISFIED" and not any(o in k for o in h.covers_optional)]
@@ -437,6 +442,8 @@ def main(args):
                  "See DESIGN.md section 4, %s, for what the harness family decides and what lies outside the claim." % prop)
         if not args.no_evidence and not args.only:
             write_evidence(prop, args.tier, results, wall, violations, notes, known_lines)
+        for name, why in attempts_open:
+            log("ATTEMPT harness=%s did not close (not part of the claim): %s" % (name, why))
         for name, why in inconclusive:
             log("INCONCLUSIVE harness=%s: %s" % (name, why))
         if violations:
